@@ -20,6 +20,7 @@ type pfCtx struct {
 	kind  string
 	set   [256]bool
 	digit bool
+	lineAnchor bool // wrapped by WrapLineAnchor: only line-start occurrences count
 }
 
 type litCtx struct {
@@ -120,6 +121,9 @@ func setupPF(it *Item) *pfCtx {
 			c.pf = prefilter.WrapIncomplete(c.pf)
 		case "tracker":
 			c.pf = prefilter.WrapWithTracking(c.pf)
+		case "wrap-lineanchor":
+			c.pf = prefilter.WrapLineAnchor(c.pf)
+			c.lineAnchor = true
 		}
 	}
 	// source alternation as a regexp (literals are plain bytes)
@@ -166,6 +170,9 @@ func runC16(c *pfCtx, it *Item) {
 			}
 			continue
 		}
+		if c.lineAnchor && i > 0 && h[i-1] != '\n' {
+			continue // (?m)^ wrapper: only occurrences at the start of a line count, whatever the start offset is
+		}
 		for _, l := range c.lits {
 			if hasPrefixAt(h, i, l) {
 				want = i
@@ -177,7 +184,7 @@ func runC16(c *pfCtx, it *Item) {
 	verif.SnapInt("want", want)
 	reachBool(want >= 0)
 	verif.Assert(got == want, "C16 "+c.kind+" Find is not the smallest literal position at or after start")
-	if !c.digit && c.pf.IsComplete() {
+	if !c.digit && !c.lineAnchor && c.pf.IsComplete() {
 		verif.Reach("complete")
 		loc := c.std.FindIndex(h[s:])
 		if mf, ok := c.pf.(prefilter.MatchFinder); ok {
